@@ -165,14 +165,20 @@ func TestCheck(t *testing.T) {
 	rep := mon.NewReporter(cfg,
 		"exploration",
 		"a case = successor input type x 1..3 predecessors (START and/or lambda nodes; successor = END or a lambda node) x 1..6 declarations "+
-			"(field mappings in all six constructor forms, AddInput without mappings, SetStaticValue) generated over a universe of 14 declared "+
+			"(field mappings in all six constructor forms, whole-output inputs, SetStaticValue) generated over a universe of 14 declared "+
 			"source and 14 target types (nested structs, pointers, pointer to pointer, map[string]T with struct/pointer/string elements, "+
-			"map[string]any, any holes, any- and Shape-typed fields) with concrete predecessor outputs (nil pointers / absent keys off the used "+
-			"paths, at most one hostile element on a used path); 40% of the cases get one overlapping declaration. Every case is compiled in "+
-			"all declaration orders (<=4 declarations; 24 random orders above), 3x each. Non-trivial = the declaration set overlaps and >=2 "+
+			"map[string]any, any holes up to 5 levels, any- and Shape-typed fields). Every predecessor is declared in one of six ways (AddInput; "+
+			"AddInputWithOptions; AddInputWithOptions+WithNoDirectDependency with AddDependency next to it before/after, with a relay node, or below a "+
+			"branch that selects the successor; the deprecated AddEnd), mixed freely inside one set. Source paths continue up to 6 elements through one "+
+			"or two interface-typed positions into dynamic values of 12 shapes (structs, pointers, typed maps, map[string]any, nested). Predecessor "+
+			"outputs are concrete values (nil pointers / absent keys off the used paths, also inside dynamic values; at most one hostile element on a "+
+			"used path: at any interface-typed position of the path a nil / typed nil / non-container / map with non-string key / struct or map that "+
+			"lacks a step at any depth below concretely typed fields, elements of typed maps or run-time made structs / a look-alike struct / a value of "+
+			"another type or nil at the end). 40% of the cases get one overlapping declaration; the set without it must compile (else the case is skipped). "+
+			"Every case is compiled in all declaration orders (<=4 declarations; 24 random orders above), 3x each. Non-trivial = the declaration set overlaps and >=2 "+
 			"orders were compiled, or it does not overlap, was accepted, has >=2 declarations or a nested path, and two accepted orders were "+
 			"each run 3x with Invoke and 6x in stream mode (3 chunkings), every run compared with the reference, the predecessor outputs "+
-			"hashed after every run. Distinct = distinct (types, mapping set, static paths).",
+			"hashed after every run. Distinct = distinct (types, ways of declaring, mapping set, static paths).",
 		[]string{
 			"the reference (own reflect walker for path get/set, overlap predicate, canonical rendering) is written from the property statement",
 			"where no value exists at a source path (absent map key, nil pointer or nil interface on the way) an error and 'target left unset' are both accepted, a panic is not",
@@ -192,9 +198,15 @@ func TestCheck(t *testing.T) {
 	rep.Require("runs_equal_to_reference", int64(cfg.Pick(1000, 20000)))
 	rep.Require("stream_chunks_compared", int64(cfg.Pick(500, 10000)))
 	rep.Require("runtime_type_check_errors_observed", int64(cfg.Pick(3, 50)))
+	rep.Require("overlap_sets_with_no_direct_dependency_rejected_in_every_order", int64(cfg.Pick(20, 400)))
+	rep.Require("overlap_sets_mixing_declaration_kinds_rejected_in_every_order", int64(cfg.Pick(10, 200)))
+	rep.Require("nonoverlap_sets_with_no_direct_dependency_run", int64(cfg.Pick(50, 1000)))
+	rep.Require("dynamic_source_paths_run/3_steps_below_the_first_interface", int64(cfg.Pick(10, 200)))
+	rep.Require("dynamic_source_paths_run/through_two_interfaces", int64(cfg.Pick(10, 200)))
+	rep.Require("errors_observed_for_a_step_missing_deeper_below_an_interface", int64(cfg.Pick(5, 100)))
 
 	ctx := context.Background()
-	n := int64(cfg.Pick(375, 20000))
+	n := int64(cfg.Pick(500, 20000))
 	rep.Cases(n, func(idx int64, rng *mon.Rand) {
 		c := genCase(rng)
 		runCase(ctx, rep, rng, c, idx)
@@ -546,6 +558,12 @@ func (c *Case) judge(rep *mon.Reporter, mode, ord string, e *expectation, o outc
 	case "error":
 		if e.Must {
 			rep.Count("runtime_type_check_errors_observed", 1)
+			for _, k := range mon.SortedKeys(e.All) {
+				if k == "field-missing-deeper-below-interface-source" || k == "non-container-deeper-below-interface-source" || k == "non-string-key-map-deeper-below-interface-source" {
+					rep.Count("errors_observed_for_a_step_missing_deeper_below_an_interface", 1)
+					break
+				}
+			}
 			return true
 		}
 		if e.May {
